@@ -250,9 +250,14 @@ class BuildAssembly(Assembly):
                     if last_added_i is not None and last_added_i != i - 1:
                         # Last added row was not the previous row in the
                         # scaffold
-                        prev_row = scffld.rows[i - 1]
-                        if isinstance(prev_row, Gap):
-                            new_scffld.add_row(prev_row)
+                        between = scffld.rows[last_added_i + 1 : i]
+                        if all(isinstance(row, Gap) for row in between):
+                            # Only gaps separate the two fragments in the
+                            # input scaffold, so keep every one of them
+                            for gap in between:
+                                new_scffld.add_row(gap)
+                        elif isinstance(between[-1], Gap):
+                            new_scffld.add_row(between[-1])
                         else:
                             new_scffld.add_row(self.default_gap)
                     new_scffld.add_row(frag)
